@@ -222,6 +222,53 @@ Fixpoint extrap (fuel : nat) (d : list (Q * Q)) : Q :=
 
 Definition richardson (d : list (Q * Q)) : Q := extrap (length d) d.
 
+(* ---------------------------------------------------------------- specification vocabulary *)
+(* semantics of a circuit in an arbitrary structure (G, op, inv, e): Adjoint = formal inverse *)
+Fixpoint denote {G : Type} (inv : G -> G) (den : bool -> Z -> list Z -> Z -> G) (g : gate) : G :=
+  match g with
+  | Base n w p => den false n w p
+  | Chan n w p => den true n w p
+  | Adj x => inv (denote inv den x)
+  end.
+Definition gprod {G : Type} (op : G -> G -> G) (inv : G -> G) (e : G)
+           (den : bool -> Z -> list Z -> Z -> G) (l : list gate) : G :=
+  fold_right (fun g acc => op (denote inv den g) acc) e l.
+
+(* add_noise: what a pair contributes for an operator; the part queued ahead of / behind a re-queued op *)
+Definition sel (operation : gate) (cn : (gate -> bool) * (gate -> list gate)) : list gate :=
+  if fst cn operation then snd cn operation else [].
+Definition pre_of (g : gate) (l : list gate) : list gate :=
+  match index_of g l with Some i => firstn i l | None => [] end.
+Definition post_of (g : gate) (l : list gate) : list gate :=
+  match index_of g l with Some i => skipn (S i) l | None => l end.
+Definition noise_before (model : noise_model) (g : gate) : list gate :=
+  concat (rev (map (fun cn => pre_of g (sel g cn)) model)).
+Definition noise_after (model : noise_model) (g : gate) : list gate :=
+  concat (map (fun cn => post_of g (sel g cn)) model).
+Definition noise_block (model : noise_model) (g : gate) : list gate :=
+  noise_before model g ++ [g] ++ noise_after model g.
+
+(* insert: the operators inserted next to circuit operator g *)
+Definition ins_of (mk : Z -> list gate) (pos : position) (g : gate) : list gate :=
+  (if is_pos pos PAll then flat_map mk (gwires g) else []) ++
+  match pos with
+  | POps cl => flat_map (fun c => if isa g c then flat_map mk (gwires g) else []) cl
+  | _ => []
+  end.
+Definition insert_block (mk : Z -> list gate) (pos : position) (before : bool) (g : gate) : list gate :=
+  if before then ins_of mk pos g ++ [g] else g :: ins_of mk pos g.
+Definition insert_spec (mk : Z -> list gate) (pos : position) (before : bool)
+           (ops : list gate) (mw : list Z) : list gate :=
+  let np := num_preps ops in
+  firstn np ops
+  ++ (if is_pos pos PStart then flat_map mk (tape_wires ops mw) else [])
+  ++ flat_map (insert_block mk pos before) (skipn np ops)
+  ++ (if is_pos pos PEnd then flat_map mk (tape_wires ops mw) else []).
+
+(* pairwise distinct nodes (w.r.t. rational equality) *)
+Fixpoint distinctQ (l : list Q) : Prop :=
+  match l with [] => True | x :: r => Forall (fun y => ~ (y == x)%Q) r /\ distinctQ r end.
+
 (* ---------------------------------------------------------------- correspondence cases *)
 Inductive tcase :=
 | TFold (ops : list gate) (p q : Z) (expected : option (list gate))
